@@ -206,6 +206,9 @@ def run(ctx):
               ("isotope('56-Xx')", lambda: call(T, "isotope", "56-Xx"), "ValueError"), ("isotope('999-Fe')", lambda: call(T, "isotope", "999-Fe"), "ValueError"),
               ("isotope('a-Fe')", lambda: call(T, "isotope", "a-Fe"), "ValueError"), ("isotope('1-2-3')", lambda: call(T, "isotope", "1-2-3"), "ValueError"),
               ("isotope('4-D')", lambda: call(T, "isotope", "4-D"), "ValueError"), ("isotope('0-Fe')", lambda: call(T, "isotope", "0-Fe"), None),
+              *[(f"isotope({k!r})", (lambda k=k: call(T, "isotope", k)), "ValueError")
+                for k in ("Fe-56", "56-Fe-2", "Fe{2+}", "H2O", "D2", "56-Fe\n", "56-Fe ", "56Fe", "56-", "-Fe", "", "Fe2", "56-fe", "56--Fe", "56.0-Fe")],
+              *[(f"symbol({k!r})", (lambda k=k: call(T, "symbol", k)), "ValueError") for k in ("Fe ", " Fe", "Fe\n", "Fe2", "FE")],
               ("table[200]", lambda: sub(T, 200), "KeyError"), ("table[-1]", lambda: sub(T, -1), "KeyError"), ("table[119]", lambda: sub(T, 119), "KeyError"),
               ("Fe[999]", lambda: sub(Fe, 999), "KeyError"), ("Fe[55]", lambda: sub(Fe, 55), "KeyError"),
               ("Fe.ion[99]", lambda: sub(I.getattr(Fe, "ion"), 99), "ValueError"), ("Fe[56].ion[9]", lambda: sub(I.getattr(fe56, "ion"), 9), "ValueError"),
